@@ -106,7 +106,7 @@ class Prop:
             if f.startswith("cases_C17_"):
                 os.unlink(os.path.join(d, f))
         inp = os.path.join(d, "in.json")
-        keys = ("conc", "gseed", "type", "init", "data", "proto", "src", "dst", "tlen", "raw", "nbufs", "offset", "room")
+        keys = ("sizes_extra", "conc", "gseed", "type", "init", "data", "proto", "src", "dst", "tlen", "raw", "nbufs", "offset", "room")
         # an observation made in a concurrent pass is re-judged as recorded (the harness keeps it)
         obs = ("panic", "touched", "n", "err", "segs", "gen", "info")
         json.dump([{k: c[k] for k in keys + (obs if c.get("conc") else ()) if k in c} for c in cases], open(inp, "w"))
@@ -127,6 +127,8 @@ class Prop:
             return      # an observation of a concurrent pass is not reproduced by a call on its own
         raw = base64.b64decode(case["raw"])
         base = {"nbufs": case["nbufs"], "offset": case["offset"], "room": case["room"]}
+        if case.get("sizes_extra"):
+            base["sizes_extra"] = case["sizes_extra"]
         if case.get("type"):
             base["type"] = case["type"]      # "rd": keep going through NativeTun.Read
         seen = set()
@@ -175,7 +177,7 @@ class Prop:
         if c.get("type") in ("ck", "ph"):
             return {k: c.get(k) for k in ("gen", "type", "init", "data", "proto", "src", "dst", "tlen", "obs_nofold", "obs_ck")}
         return {"gen": c.get("gen"), "info": c.get("info"), "raw_len": len(base64.b64decode(c["raw"])),
-                "virtio_hdr": base64.b64decode(c["raw"])[:10].hex(), "nbufs": c["nbufs"], "offset": c["offset"],
+                "virtio_hdr": base64.b64decode(c["raw"])[:10].hex(), "nbufs": c["nbufs"], "len_sizes": c["nbufs"] + c.get("sizes_extra", 0), "offset": c["offset"],
                 "observed": {"n": c.get("n"), "err": c.get("err_msg") or None, "panic": c.get("panic_msg") or None,
                              "segment_sizes": [len(base64.b64decode(s)) for s in (c.get("segs") or [])][:8]}}
 
